@@ -625,7 +625,11 @@ def ident(a, b):
             return is_none(b)
         if isinstance(b, VNone):
             return is_none(a)
-        raise Unsupported('identity between two optionals')
+        if isinstance(a, VOpt) and isinstance(b, VOpt):
+            return z3.Or(z3.And(a.none, b.none),
+                         z3.And(z3.Not(a.none), z3.Not(b.none), ident(a.val, b.val)))
+        o, x = (a, b) if isinstance(a, VOpt) else (b, a)
+        return z3.And(z3.Not(o.none), z3.Not(is_none(x)), ident(o.val, x))
     if isinstance(a, VAny) or isinstance(b, VAny):
         ta, tb = to_any(a).t, to_any(b).t
         return ta == tb
